@@ -127,5 +127,21 @@ func TestHoleTemplatesAreWellFormed(t *testing.T) {
 			t.Errorf("query hole %d filled: library err=%v reference ok=%v\n%s", i, err, ok, src)
 		}
 	}
-	t.Logf("%d schema holes, %d query holes", len(SchemaHoles), len(QueryHoles))
+	for i, d := range SchemaSeedDocs() {
+		src := Render(d)
+		_, err := parser.ParseSchema(&ast.Source{Input: src})
+		ok, _ := RefSchema(Significant(d), Liberties{})
+		if err != nil || !ok {
+			t.Errorf("schema seed document %d: library err=%v reference ok=%v\n%s", i, err, ok, src)
+		}
+	}
+	for i, d := range QuerySeedDocs() {
+		src := Render(d)
+		_, err := parser.ParseQuery(&ast.Source{Input: src})
+		ok, _ := RefQuery(Significant(d), Liberties{})
+		if err != nil || !ok {
+			t.Errorf("query seed document %d: library err=%v reference ok=%v\n%s", i, err, ok, src)
+		}
+	}
+	t.Logf("%d schema holes, %d query holes, %d schema seed documents, %d query seed documents", len(SchemaHoles), len(QueryHoles), len(SchemaSeedDocs()), len(QuerySeedDocs()))
 }
